@@ -39,8 +39,16 @@ void BiPropNode::biPropDependsOnOneNode(BiPropNode& node) {
     set_insert(*biPropSet_, &node);
     node.biPropSet_ = biPropSet_;
   } else if (node.biPropSet_ != nullptr && biPropSet_ != nullptr) {
-    set_union(*biPropSet_, *node.biPropSet_);
-    node.biPropSet_ = biPropSet_;
+    if (node.biPropSet_ != biPropSet_) {
+      set_union(*biPropSet_, *node.biPropSet_);
+      // Every member of the absorbed set (not only `node`) must refer to the merged set; otherwise
+      // the other members keep propagating through the stale, smaller set (and keep it alive with
+      // pointers that subgraph clear() no longer removes).
+      const std::shared_ptr<std::vector<const BiPropNode*>> absorbed = node.biPropSet_;
+      for (const BiPropNode* member : *absorbed) {
+        const_cast<BiPropNode*>(member)->biPropSet_ = biPropSet_;
+      }
+    }
   } else if (biPropSet_ == nullptr) {
     biPropSet_ = node.biPropSet_;
     set_insert(*biPropSet_, this);
